@@ -85,46 +85,47 @@ def main():
             results.append(_run_shard((modname, s, tier, seed)))
     else:
         import multiprocessing as mp
-        from concurrent.futures import ProcessPoolExecutor
+        from concurrent.futures import ProcessPoolExecutor, ThreadPoolExecutor
         ctx = mp.get_context("spawn")
-        # one fresh process per shard: NUMBA_NUM_THREADS is fixed once numba has launched its threads, and no state
-        # (numba thread pools, caches inside the library under test) may leak from one shard into another
-        with ProcessPoolExecutor(max_workers=jobs, mp_context=ctx, max_tasks_per_child=1) as ex:
+        # one fresh process per shard, each in a pool of its own: NUMBA_NUM_THREADS is fixed once numba has launched its threads, no
+        # state (numba thread pools, caches inside the library under test) may leak from one shard into another, and a worker that
+        # dies inside native code (segfault / abort) takes only its own shard with it
+        # horizon: a shard that does not finish is reported as such (a change that makes the code under test loop forever must
+        # not hang the check); quick shards take well under 2 minutes, thorough shards well under 30
+        limit = float(os.environ.get("VERIF_SHARD_TIMEOUT", "900" if tier == "quick" else "7200"))
+        deadline = time.time() + limit
+
+        def crashed(sh, why, capped):
+            return dict(shard=str(sh.get("name")), evaluations=0, nontrivial=0, samples=[], violations=[], n_violations=0,
+                        viol_sigs={}, counters={}, outcomes=[], digest="crash", notes=[], capped=capped, wall_s=limit if capped else 0.0, crash=why)
+
+        def isolated(sh):
+            ex = ProcessPoolExecutor(max_workers=1, mp_context=ctx)
+            try:
+                fut = ex.submit(_run_shard, (modname, sh, tier, seed))
+                try:
+                    return fut.result(timeout=max(1.0, deadline - time.time()))
+                except TimeoutError:
+                    for pr in list(getattr(ex, "_processes", {}).values()):
+                        try:
+                            pr.kill()
+                        except Exception:  # noqa: BLE001
+                            pass
+                    return crashed(sh, "shard did not finish within %.0f s (non-termination or far slower than on the unchanged tree)" % limit, True)
+                except Exception as e:  # noqa: BLE001 - the worker process died (segfault / abort inside native code)
+                    return crashed(sh, "worker process died while running this shard: %s: %s" % (type(e).__name__, e), False)
+            finally:
+                ex.shutdown(wait=False, cancel_futures=True)
+
+        with ThreadPoolExecutor(max_workers=jobs) as tp:
             # heavy shards first
             order = sorted(range(len(shards)), key=lambda i: -shards[i].get("weight", 1))
-            futs = {i: ex.submit(_run_shard, (modname, shards[i], tier, seed)) for i in order}
+            futs = {i: tp.submit(isolated, shards[i]) for i in order}
             # fresh-process determinism replay: the lightest shard is executed a second time in another fresh process
             i0 = min(range(len(shards)), key=lambda i: shards[i].get("weight", 1))
-            fut2 = ex.submit(_run_shard, (modname, shards[i0], tier, seed))
-            results = []
-            # horizon: a shard that does not finish is reported as such (a change that makes the code under test loop forever must
-            # not hang the check); quick shards take well under 2 minutes, thorough shards well under 30
-            limit = float(os.environ.get("VERIF_SHARD_TIMEOUT", "900" if tier == "quick" else "7200"))
-            deadline = time.time() + limit
-            timed_out = False
-            for i in range(len(shards)):
-                try:
-                    results.append(futs[i].result(timeout=max(1.0, deadline - time.time())))
-                except TimeoutError:
-                    timed_out = True
-                    results.append(dict(shard=str(shards[i].get("name")), evaluations=0, nontrivial=0, samples=[], violations=[], n_violations=0,
-                                        viol_sigs={}, counters={}, outcomes=[], digest="crash", notes=[], capped=True, wall_s=limit,
-                                        crash="shard did not finish within %.0f s (non-termination or far slower than on the unchanged tree)" % limit))
-                except Exception as e:  # noqa: BLE001 - a worker process died (segfault / abort inside native code)
-                    results.append(dict(shard=str(shards[i].get("name")), evaluations=0, nontrivial=0, samples=[], violations=[], n_violations=0,
-                                        viol_sigs={}, counters={}, outcomes=[], digest="crash", notes=[], capped=False, wall_s=0.0,
-                                        crash="worker process died while running this shard (or a shard sharing the pool): %s: %s" % (type(e).__name__, e)))
-            try:
-                r2 = fut2.result(timeout=max(1.0, deadline - time.time()))
-            except BaseException:  # noqa: BLE001
-                r2 = dict(digest="crash")
-            if timed_out:
-                for pr in list(getattr(ex, "_processes", {}).values()):
-                    try:
-                        pr.kill()
-                    except Exception:  # noqa: BLE001
-                        pass
-                ex.shutdown(wait=False, cancel_futures=True)
+            fut2 = tp.submit(isolated, shards[i0])
+            results = [futs[i].result() for i in range(len(shards))]
+            r2 = fut2.result()
     crashes = [r for r in results if r.get("crash")]
     det = None
     if shards and not crashes and not (a.inproc or jobs == 1 and len(shards) == 1):
